@@ -41,7 +41,9 @@ theorem C11_magic : le32 magicPRGC = [80, 82, 71, 67] ∧ le32 magicFlipped = [6
   decide
 
 /-- non-vacuity: a concrete written file, one of its prefixes and the error it gets -/
-example : Cache.parse ((Cache.write [Record.cls [111] [97]]).take 30) = .error .invalidClasses := by
+example : (match Cache.parse ((Cache.write [Record.cls [111] [97]]).take 30) with
+    | .error .invalidClasses => true
+    | _ => false) = true := by
   decide
 
 end PG
